@@ -334,7 +334,7 @@ Section SnapshotStep.
       split; [|split; [intros H0; discriminate H0|split; intros H0; discriminate H0]].
       intros _ _. exact Hk. }
     unfold handle_snapshot. fold n. fold t.
-    destruct (m_index m <=? n_commit n) eqn:Eic.
+    destruct ((m_index m <=? n_commit n) || m_reject m) eqn:Eic.
     - (* at or below the commit index: acknowledge the commit index *)
       cbn [fst snd]. rewrite Hshape. cbn [app_ack reply m_reject m_index].
       apply inv_add_msgs.
@@ -344,7 +344,7 @@ Section SnapshotStep.
         * destruct HcomX as [H1 H2]. split; [exact HoK9a|split; assumption].
         * split; [exact HoK9a|left; reflexivity].
       + intros m' [<-|[]]. apply Hack_ok. cbn [ga]. rewrite upd2_same. lia.
-    - apply Nat.leb_gt in Eic.
+    - apply orb_false_iff in Eic as [Eic _]. apply Nat.leb_gt in Eic.
       destruct (term_at (n_log n) (m_index m) =? m_logterm m) eqn:Emt.
       + (* matchTerm: the commit index is fast-forwarded *)
         apply Nat.eqb_eq in Emt.
